@@ -56,7 +56,7 @@ def run_ledger(prop, profiles, tier, seed, rule_extra="", verdict=None):
     trans = {}
     for p in profiles:
         runs = [(f"MC_Ledger_{p}_q.cfg", {}, True)]
-        sim_n = 300 if tier == "quick" else 20000
+        sim_n = 300 if tier == "quick" else 3000
         runs.append((f"MC_Ledger_{p}_sim.cfg", {"simulate": sim_n, "depth": 4, "seed": seed}, True))
         if tier == "thorough":
             runs.append((f"MC_Ledger_{p}_t.cfg", {}, False))
@@ -80,7 +80,7 @@ def run_ledger(prop, profiles, tier, seed, rule_extra="", verdict=None):
     for p in profiles:
         cfg = f"MC_Ledger_{p}_blocks.cfg"
         r = vf.run_tlc("Ledger.tla", cfg, tag=f"{prop}-{cfg}", workers=1, timeout=3000, xmx="8g",
-                       simulate=4000 if tier == "quick" else 40000, depth=4, seed=seed)
+                       simulate=4000 if tier == "quick" else 12000, depth=4, seed=seed)
         if r.violation:
             v.mismatch(f"spec:Ledger:{cfg}:{r.violation}", vf.tlc_violation_case(r))
             continue
